@@ -240,6 +240,10 @@ impl CompressedParameterSet {
     pub fn from<H: HashChain>(parameters: &[HssParameter<H>]) -> Result<Self, ()> {
         let mut result = CompressedParameterSet::default();
 
+        if parameters.len() > MAX_ALLOWED_HSS_LEVELS {
+            return Err(());
+        }
+
         for (i, parameter) in parameters.iter().enumerate() {
             let lmots = parameter.get_lmots_parameter();
             let lms = parameter.get_lms_parameter();
@@ -270,6 +274,13 @@ impl CompressedParameterSet {
 
             let lms = LmsAlgorithm::from(lms_type as u32);
             let lmots = LmotsAlgorithm::from(lmots_type as u32);
+
+            // Reserved / unknown codes (e.g. from a corrupted key file) are an error, not a panic
+            if lms.construct_parameter::<H>().is_none()
+                || lmots.construct_parameter::<H>().is_none()
+            {
+                return Err(());
+            }
 
             result.extend_from_slice(&[HssParameter::new(lmots, lms)]);
         }
